@@ -126,6 +126,15 @@ struct C14 : vr::Driver {
         }
         cfgs.push_back({{}, {x, y}, th ? 1 : 1});
       }
+    // length-3 sequences on ONE file: add / remove / add again and friends (events may be drained in a single read)
+    {
+      EnvOp Wa1{'W', "a", 0}, Wa2{'W', "a", 1}, Da{'D', "a", 0}, Ma{'M', "a", 0}, Aa1{'A', "a", 0}, Aa2{'A', "a", 1}, Wbad{'W', "a", 2};
+      std::vector<std::vector<EnvOp>> tri = {{Wa1, Da, Wa1}, {Wa1, Da, Wa2}, {Aa1, Da, Aa2}, {Wa1, Ma, Wa2}, {Wa1, Wa2, Da}, {Wa1, Wbad, Wa2}};
+      for (size_t k = 0; k < tri.size(); k++)
+        if (th || k == 1 || k == 2 || k == 3) cfgs.push_back({{}, tri[k], 1});
+      cfgs.push_back({{{"a", 0}}, {Da, Wa2, Da}, 1});
+      if (th) cfgs.push_back({{{"a", 0}}, {Da, Aa2, Wa1}, 1});
+    }
     if (th)
       for (auto& x : alphabet)
         for (auto& y : alphabet)
